@@ -1725,14 +1725,14 @@ MANIFEST = {
     "design_ref": "DESIGN.md 4/C08",
 }
 FINDINGS = [
-    {"status": "fixed", "key": "reserved-type-variable-name:KeyError", "commit": "fixes/C08-3.patch",
+    {"status": "fixed", "key": "reserved-type-variable-name:KeyError", "commit": "fbdb1a0",
      "what": "parse_term(\"(x::?'_t1) = (y::?'_t0) & f x & f y\"): KeyError - a user type variable whose name starts with _t is taken for "
              "one of type_infer's internal variables (is_internal_type is name.startswith('_t'))"},
-    {"status": "fixed", "key": "reserved-type-variable-name:ValueError", "commit": "fixes/C08-3.patch",
+    {"status": "fixed", "key": "reserved-type-variable-name:ValueError", "commit": "fbdb1a0",
      "what": "parse_term(\"(x::?'_tx) = y\"): ValueError from int('x')"},
-    {"status": "fixed", "key": "reserved-type-variable-name:accepted", "commit": "fixes/C08-3.patch",
+    {"status": "fixed", "key": "reserved-type-variable-name:accepted", "commit": "fbdb1a0",
      "what": "with x :: ?'_t0 declared in the context, `x = y & y` is accepted and gives x the type bool (declared type not respected)"},
-    {"status": "fixed", "key": "defs-head-annotation-overwritten", "commit": "fixes/C08-4.patch",
+    {"status": "fixed", "key": "defs-head-annotation-overwritten", "commit": "a7afcf9",
      "what": "under Context(defs={f: nat => nat}) the annotation in `(f::bool => bool) x = x` is replaced by nat => nat "
              "(or a typable definition is rejected with a clash)"},
     {"status": "fixed", "key": "occurs-check-escaped", "commit": "9a9993c",
